@@ -52,6 +52,8 @@ def run_one_shard(prop, tier, seed, idx, spec, outdir, timeout):
     env.setdefault("PYTHONHASHSEED", "0")
     if "hashseed" in spec:
         env["PYTHONHASHSEED"] = str(spec["hashseed"])
+    for k_, v_ in (spec.get("env") or {}).items():     # e.g. TZ for a shard that runs under another host time zone
+        env[k_] = str(v_)
     env["PYTHONPATH"] = os.pathsep.join(
         [os.path.join(core.REPO, "src"), LIB, VERIF,
          os.path.join(VERIF, ".deps")])
